@@ -358,7 +358,7 @@ func run(c Case) (o hx.Outcome) {
 			}
 		}
 	}
-	sched.Quiesce(base)
+	sched.QuiesceFor(base, 30*time.Millisecond) // abandoned workers on error returns are expected here
 
 	delivered := tr.delivered.Load()
 	if err == nil && complete != "" {
